@@ -6,16 +6,16 @@ import Amoco.Model.SemDsl
 namespace Generated.Rv
 open Amoco.Rv
 
-/-- from amoco/arch/riscv/rv32i/asm.py (sha256 64f333c1b9f67b51) -/
+/-- from amoco/arch/riscv/rv32i/asm.py (sha256 63fa869fd23e0c2c) -/
 def rv32_tab : List (Mn × Sem) := [
   (.LUI, [(.assign .pc (.bin .add .pc .ilen)), (.guardNZ 0 (.assign (.opnd 0) (.opnd 1)))]),
-  (.AUIPC, [(.guardNZ 0 (.assign (.opnd 0) (.bin .add .pc (.opnd 1)))), (.assign .pc (.bin .add .pc .ilen))]),
+  (.AUIPC, [(.assign .pc (.bin .add .pc .ilen)), (.guardNZ 0 (.assign (.opnd 0) (.bin .add .pc (.opnd 1))))]),
   (.JAL, [(.guardNZ 0 (.assign (.opnd 0) (.bin .add .pc .ilen))), (.assign .pc (.bin .add .pc (.opnd 1)))]),
-  (.JALR, [(.bind (.bin .and (.bin .add (.opnd 1) (.opnd 2)) (.int (-2)))), (.guardNZ 0 (.assign (.opnd 0) (.bin .add .pc .ilen))), (.assign .pc (.loc 0))]),
+  (.JALR, [(.guardNZ 0 (.assign (.opnd 0) (.bin .add .pc .ilen))), (.assign .pc (.bin .add (.opnd 1) (.opnd 2)))]),
   (.BEQ, [(.assign .pc (.tst (.bin .eq (.opnd 0) (.opnd 1)) (.bin .add .pc (.opnd 2)) (.bin .add .pc .ilen)))]),
   (.BNE, [(.assign .pc (.tst (.bin .ne (.opnd 0) (.opnd 1)) (.bin .add .pc (.opnd 2)) (.bin .add .pc .ilen)))]),
-  (.BLT, [(.assign .pc (.tst (.bin .lt (.signed (.opnd 0)) (.signed (.opnd 1))) (.bin .add .pc (.opnd 2)) (.bin .add .pc .ilen)))]),
-  (.BGE, [(.assign .pc (.tst (.bin .ge (.signed (.opnd 0)) (.signed (.opnd 1))) (.bin .add .pc (.opnd 2)) (.bin .add .pc .ilen)))]),
+  (.BLT, [(.assign .pc (.tst (.bin .lt (.opnd 0) (.opnd 1)) (.bin .add .pc (.opnd 2)) (.bin .add .pc .ilen)))]),
+  (.BGE, [(.assign .pc (.tst (.bin .ge (.opnd 0) (.opnd 1)) (.bin .add .pc (.opnd 2)) (.bin .add .pc .ilen)))]),
   (.BLTU, [(.assign .pc (.tst (.bin .ltu (.opnd 0) (.opnd 1)) (.bin .add .pc (.opnd 2)) (.bin .add .pc .ilen)))]),
   (.BGEU, [(.assign .pc (.tst (.bin .geu (.opnd 0) (.opnd 1)) (.bin .add .pc (.opnd 2)) (.bin .add .pc .ilen)))]),
   (.LB, [(.assign .pc (.bin .add .pc .ilen)), (.assign (.opnd 0) (.sext (.opnd 1) 32))]),
@@ -27,7 +27,7 @@ def rv32_tab : List (Mn × Sem) := [
   (.SH, [(.assign .pc (.bin .add .pc .ilen)), (.assign (.opnd 0) (.slc (.opnd 1) 0 16))]),
   (.SW, [(.assign .pc (.bin .add .pc .ilen)), (.assign (.opnd 0) (.opnd 1))]),
   (.ADDI, [(.assign .pc (.bin .add .pc .ilen)), (.guardNZ 0 (.assign (.opnd 0) (.bin .add (.opnd 1) (.opnd 2))))]),
-  (.SLTI, [(.assign .pc (.bin .add .pc .ilen)), (.guardNZ 0 (.assign (.opnd 0) (.tst (.bin .lt (.signed (.opnd 1)) (.signed (.opnd 2))) (.cst 1 32) (.cst 0 32))))]),
+  (.SLTI, [(.assign .pc (.bin .add .pc .ilen)), (.guardNZ 0 (.assign (.opnd 0) (.tst (.bin .lt (.opnd 1) (.opnd 2)) (.cst 1 32) (.cst 0 32))))]),
   (.SLTIU, [(.assign .pc (.bin .add .pc .ilen)), (.guardNZ 0 (.assign (.opnd 0) (.tst (.bin .ltu (.opnd 1) (.opnd 2)) (.cst 1 32) (.cst 0 32))))]),
   (.XORI, [(.assign .pc (.bin .add .pc .ilen)), (.guardNZ 0 (.assign (.opnd 0) (.bin .xor (.opnd 1) (.opnd 2))))]),
   (.ORI, [(.assign .pc (.bin .add .pc .ilen)), (.guardNZ 0 (.assign (.opnd 0) (.bin .or (.opnd 1) (.opnd 2))))]),
@@ -38,7 +38,7 @@ def rv32_tab : List (Mn × Sem) := [
   (.ADD, [(.assign .pc (.bin .add .pc .ilen)), (.guardNZ 0 (.assign (.opnd 0) (.bin .add (.opnd 1) (.opnd 2))))]),
   (.SUB, [(.assign .pc (.bin .add .pc .ilen)), (.guardNZ 0 (.assign (.opnd 0) (.bin .sub (.opnd 1) (.opnd 2))))]),
   (.SLL, [(.assign .pc (.bin .add .pc .ilen)), (.guardNZ 0 (.assign (.opnd 0) (.bin .shl (.unsigned (.opnd 1)) (.bin .and (.unsigned (.opnd 2)) (.int 31)))))]),
-  (.SLT, [(.assign .pc (.bin .add .pc .ilen)), (.guardNZ 0 (.assign (.opnd 0) (.tst (.bin .lt (.signed (.opnd 1)) (.signed (.opnd 2))) (.cst 1 32) (.cst 0 32))))]),
+  (.SLT, [(.assign .pc (.bin .add .pc .ilen)), (.guardNZ 0 (.assign (.opnd 0) (.tst (.bin .lt (.opnd 1) (.opnd 2)) (.cst 1 32) (.cst 0 32))))]),
   (.SLTU, [(.assign .pc (.bin .add .pc .ilen)), (.guardNZ 0 (.assign (.opnd 0) (.tst (.bin .ltu (.opnd 1) (.opnd 2)) (.cst 1 32) (.cst 0 32))))]),
   (.XOR, [(.assign .pc (.bin .add .pc .ilen)), (.guardNZ 0 (.assign (.opnd 0) (.bin .xor (.opnd 1) (.opnd 2))))]),
   (.SRL, [(.assign .pc (.bin .add .pc .ilen)), (.guardNZ 0 (.assign (.opnd 0) (.bin .shr (.unsigned (.opnd 1)) (.bin .and (.unsigned (.opnd 2)) (.int 31)))))]),
@@ -53,52 +53,52 @@ def rv32_tab : List (Mn × Sem) := [
 def rv32_extra : List String := []
 def rv32_notes : List String := []
 
-/-- from amoco/arch/riscv/rv64i/asm.py (sha256 544260cf44ab2f01) -/
+/-- from amoco/arch/riscv/rv64i/asm.py (sha256 79e26e81a1ce1679) -/
 def rv64_tab : List (Mn × Sem) := [
-  (.LUI, [(.unsupported "i_LUI: __npc decorator not recognised")]),
-  (.AUIPC, [(.guardNZ 0 (.assign (.opnd 0) (.bin .add .pc (.opnd 1)))), (.assign .pc (.bin .add .pc .ilen))]),
+  (.LUI, [(.assign .pc (.bin .add .pc .ilen)), (.guardNZ 0 (.assign (.opnd 0) (.opnd 1)))]),
+  (.AUIPC, [(.assign .pc (.bin .add .pc .ilen)), (.guardNZ 0 (.assign (.opnd 0) (.bin .add .pc (.opnd 1))))]),
   (.JAL, [(.guardNZ 0 (.assign (.opnd 0) (.bin .add .pc .ilen))), (.assign .pc (.bin .add .pc (.opnd 1)))]),
-  (.JALR, [(.bind (.bin .and (.bin .add (.opnd 1) (.opnd 2)) (.int (-2)))), (.guardNZ 0 (.assign (.opnd 0) (.bin .add .pc .ilen))), (.assign .pc (.loc 0))]),
+  (.JALR, [(.guardNZ 0 (.assign (.opnd 0) (.bin .add .pc .ilen))), (.assign .pc (.bin .add (.opnd 1) (.opnd 2)))]),
   (.BEQ, [(.assign .pc (.tst (.bin .eq (.opnd 0) (.opnd 1)) (.bin .add .pc (.opnd 2)) (.bin .add .pc .ilen)))]),
   (.BNE, [(.assign .pc (.tst (.bin .ne (.opnd 0) (.opnd 1)) (.bin .add .pc (.opnd 2)) (.bin .add .pc .ilen)))]),
-  (.BLT, [(.assign .pc (.tst (.bin .lt (.signed (.opnd 0)) (.signed (.opnd 1))) (.bin .add .pc (.opnd 2)) (.bin .add .pc .ilen)))]),
-  (.BGE, [(.assign .pc (.tst (.bin .ge (.signed (.opnd 0)) (.signed (.opnd 1))) (.bin .add .pc (.opnd 2)) (.bin .add .pc .ilen)))]),
+  (.BLT, [(.assign .pc (.tst (.bin .lt (.opnd 0) (.opnd 1)) (.bin .add .pc (.opnd 2)) (.bin .add .pc .ilen)))]),
+  (.BGE, [(.assign .pc (.tst (.bin .ge (.opnd 0) (.opnd 1)) (.bin .add .pc (.opnd 2)) (.bin .add .pc .ilen)))]),
   (.BLTU, [(.assign .pc (.tst (.bin .ltu (.opnd 0) (.opnd 1)) (.bin .add .pc (.opnd 2)) (.bin .add .pc .ilen)))]),
   (.BGEU, [(.assign .pc (.tst (.bin .geu (.opnd 0) (.opnd 1)) (.bin .add .pc (.opnd 2)) (.bin .add .pc .ilen)))]),
-  (.LB, [(.unsupported "i_LB: __npc decorator not recognised")]),
-  (.LH, [(.unsupported "i_LH: __npc decorator not recognised")]),
-  (.LW, [(.unsupported "i_LW: __npc decorator not recognised")]),
-  (.LBU, [(.unsupported "i_LBU: __npc decorator not recognised")]),
-  (.LHU, [(.unsupported "i_LHU: __npc decorator not recognised")]),
-  (.SB, [(.unsupported "i_SB: __npc decorator not recognised")]),
-  (.SH, [(.unsupported "i_SH: __npc decorator not recognised")]),
-  (.SW, [(.unsupported "i_SW: __npc decorator not recognised")]),
-  (.ADDI, [(.unsupported "i_ADDI: __npc decorator not recognised")]),
-  (.SLTI, [(.unsupported "i_SLTI: __npc decorator not recognised")]),
-  (.SLTIU, [(.unsupported "i_SLTIU: __npc decorator not recognised")]),
-  (.XORI, [(.unsupported "i_XORI: __npc decorator not recognised")]),
-  (.ORI, [(.unsupported "i_ORI: __npc decorator not recognised")]),
-  (.ANDI, [(.unsupported "i_ANDI: __npc decorator not recognised")]),
-  (.SLLI, [(.unsupported "i_SLLI: __npc decorator not recognised")]),
-  (.SRLI, [(.unsupported "i_SRLI: __npc decorator not recognised")]),
-  (.SRAI, [(.unsupported "i_SRAI: __npc decorator not recognised")]),
-  (.ADD, [(.unsupported "i_ADD: __npc decorator not recognised")]),
-  (.SUB, [(.unsupported "i_SUB: __npc decorator not recognised")]),
-  (.SLL, [(.unsupported "i_SLL: __npc decorator not recognised")]),
-  (.SLT, [(.unsupported "i_SLT: __npc decorator not recognised")]),
-  (.SLTU, [(.unsupported "i_SLTU: __npc decorator not recognised")]),
-  (.XOR, [(.unsupported "i_XOR: __npc decorator not recognised")]),
-  (.SRL, [(.unsupported "i_SRL: __npc decorator not recognised")]),
-  (.SRA, [(.unsupported "i_SRA: __npc decorator not recognised")]),
-  (.OR, [(.unsupported "i_OR: __npc decorator not recognised")]),
-  (.AND, [(.unsupported "i_AND: __npc decorator not recognised")]),
-  (.FENCE, [(.unsupported "i_FENCE: __npc decorator not recognised")]),
-  (.FENCE_I, [(.unsupported "i_FENCE_I: __npc decorator not recognised")]),
-  (.ECALL, [(.unsupported "i_ECALL: __npc decorator not recognised")])
+  (.LB, [(.assign .pc (.bin .add .pc .ilen)), (.assign (.opnd 0) (.sext (.opnd 1) 64))]),
+  (.LH, [(.assign .pc (.bin .add .pc .ilen)), (.assign (.opnd 0) (.sext (.opnd 1) 64))]),
+  (.LW, [(.assign .pc (.bin .add .pc .ilen)), (.assign (.opnd 0) (.sext (.opnd 1) 64))]),
+  (.LBU, [(.assign .pc (.bin .add .pc .ilen)), (.assign (.opnd 0) (.zext (.opnd 1) 64))]),
+  (.LHU, [(.assign .pc (.bin .add .pc .ilen)), (.assign (.opnd 0) (.zext (.opnd 1) 64))]),
+  (.SB, [(.assign .pc (.bin .add .pc .ilen)), (.assign (.opnd 0) (.slc (.opnd 1) 0 8))]),
+  (.SH, [(.assign .pc (.bin .add .pc .ilen)), (.assign (.opnd 0) (.slc (.opnd 1) 0 16))]),
+  (.SW, [(.assign .pc (.bin .add .pc .ilen)), (.assign (.opnd 0) (.opnd 1))]),
+  (.ADDI, [(.assign .pc (.bin .add .pc .ilen)), (.guardNZ 0 (.assign (.opnd 0) (.bin .add (.opnd 1) (.opnd 2))))]),
+  (.SLTI, [(.assign .pc (.bin .add .pc .ilen)), (.guardNZ 0 (.assign (.opnd 0) (.tst (.bin .lt (.opnd 1) (.opnd 2)) (.cst 1 64) (.cst 0 64))))]),
+  (.SLTIU, [(.assign .pc (.bin .add .pc .ilen)), (.guardNZ 0 (.assign (.opnd 0) (.tst (.bin .ltu (.opnd 1) (.opnd 2)) (.cst 1 64) (.cst 0 64))))]),
+  (.XORI, [(.assign .pc (.bin .add .pc .ilen)), (.guardNZ 0 (.assign (.opnd 0) (.bin .xor (.opnd 1) (.opnd 2))))]),
+  (.ORI, [(.assign .pc (.bin .add .pc .ilen)), (.guardNZ 0 (.assign (.opnd 0) (.bin .or (.opnd 1) (.opnd 2))))]),
+  (.ANDI, [(.assign .pc (.bin .add .pc .ilen)), (.guardNZ 0 (.assign (.opnd 0) (.bin .and (.opnd 1) (.opnd 2))))]),
+  (.SLLI, [(.assign .pc (.bin .add .pc .ilen)), (.guardNZ 0 (.assign (.opnd 0) (.bin .shl (.unsigned (.opnd 1)) (.unsigned (.opnd 2)))))]),
+  (.SRLI, [(.assign .pc (.bin .add .pc .ilen)), (.guardNZ 0 (.assign (.opnd 0) (.bin .shr (.unsigned (.opnd 1)) (.unsigned (.opnd 2)))))]),
+  (.SRAI, [(.assign .pc (.bin .add .pc .ilen)), (.guardNZ 0 (.assign (.opnd 0) (.bin .sar (.opnd 1) (.opnd 2))))]),
+  (.ADD, [(.assign .pc (.bin .add .pc .ilen)), (.guardNZ 0 (.assign (.opnd 0) (.bin .add (.opnd 1) (.opnd 2))))]),
+  (.SUB, [(.assign .pc (.bin .add .pc .ilen)), (.guardNZ 0 (.assign (.opnd 0) (.bin .sub (.opnd 1) (.opnd 2))))]),
+  (.SLL, [(.assign .pc (.bin .add .pc .ilen)), (.guardNZ 0 (.assign (.opnd 0) (.bin .shl (.unsigned (.opnd 1)) (.bin .and (.unsigned (.opnd 2)) (.int 31)))))]),
+  (.SLT, [(.assign .pc (.bin .add .pc .ilen)), (.guardNZ 0 (.assign (.opnd 0) (.tst (.bin .lt (.opnd 1) (.opnd 2)) (.cst 1 64) (.cst 0 64))))]),
+  (.SLTU, [(.assign .pc (.bin .add .pc .ilen)), (.guardNZ 0 (.assign (.opnd 0) (.tst (.bin .ltu (.opnd 1) (.opnd 2)) (.cst 1 64) (.cst 0 64))))]),
+  (.XOR, [(.assign .pc (.bin .add .pc .ilen)), (.guardNZ 0 (.assign (.opnd 0) (.bin .xor (.opnd 1) (.opnd 2))))]),
+  (.SRL, [(.assign .pc (.bin .add .pc .ilen)), (.guardNZ 0 (.assign (.opnd 0) (.bin .shr (.unsigned (.opnd 1)) (.bin .and (.unsigned (.opnd 2)) (.int 31)))))]),
+  (.SRA, [(.assign .pc (.bin .add .pc .ilen)), (.guardNZ 0 (.assign (.opnd 0) (.bin .sar (.signed (.opnd 1)) (.bin .and (.unsigned (.opnd 2)) (.int 31)))))]),
+  (.OR, [(.assign .pc (.bin .add .pc .ilen)), (.guardNZ 0 (.assign (.opnd 0) (.bin .or (.opnd 1) (.opnd 2))))]),
+  (.AND, [(.assign .pc (.bin .add .pc .ilen)), (.guardNZ 0 (.assign (.opnd 0) (.bin .and (.opnd 1) (.opnd 2))))]),
+  (.FENCE, [(.assign .pc (.bin .add .pc .ilen))]),
+  (.FENCE_I, [(.assign .pc (.bin .add .pc .ilen))]),
+  (.ECALL, [(.assign .pc (.bin .add .pc .ilen))])
 ]
 /-- `i_` functions that are not base-ISA mnemonics (not judged by C06) -/
 def rv64_extra : List String := []
-def rv64_notes : List String := ["__npc decorator has an unexpected body"]
+def rv64_notes : List String := []
 
 def generated (isa : Isa) (m : Mn) : Option Sem :=
   (match isa with | .rv32 => rv32_tab | .rv64 => rv64_tab).lookup m
